@@ -48,6 +48,92 @@ const ALLOWED: [(&str, &str, &str); 6] = [
     ("generator::rasn::Rasn::internal_fmt", "thread", "feeds rustfmt's stdin"),
 ];
 
+/// C20.sources: compile() and compile_to_string() read the same `state.sources`; what they deliver can only agree with what
+/// the caller asked for if every builder step keeps the sources added so far. Each `add_asn_*` / `set_output_*` method of
+/// each typestate of `Compiler` is evaluated on a state that already holds two sources (where the state has any): the
+/// resulting state holds them, in order, followed by the new ones, and the output mode is carried over.
+fn builder_sources(m: &Model, ctx: &mut Ctx) {
+    use crate::eval::{Env, Evaluator, Val};
+    use std::collections::BTreeMap as Map;
+    let consts = const_resolver(m);
+    let hook = |_: &Evaluator, name: &str, a: &[Val]| -> Option<Result<Val, String>> {
+        match name {
+            ".into" if a.len() == 1 => Some(Ok(a[0].clone())),
+            _ => None,
+        }
+    };
+    let ev = Evaluator { consts: &consts, call_hook: &hook, inline: None };
+    let mut n = 0;
+    for f in m.fns.iter().filter(|f| f.krate == "rasn-compiler" && f.self_ty.as_deref() == Some("Compiler") && (f.name.starts_with("add_asn") || f.name.starts_with("set_output"))) {
+        let Some(ity) = &f.impl_ty else { continue };
+        let state = ity.rsplit(',').next().unwrap_or("").trim_end_matches('>').trim().to_string();
+        let Ok(st) = m.find_struct(&state, None) else {
+            ctx.fail_closed("C20.sources", &format!("{}: typestate `{}` not found", f.name, state));
+            continue;
+        };
+        let has_sources = st.fields.iter().any(|(n, _, _)| n == "sources");
+        let has_mode = st.fields.iter().any(|(n, _, _)| n == "output_mode");
+        ctx.func(&f.key);
+        n += 1;
+        let key = format!("{}::{}", state, f.name);
+        ctx.oblige("C20.sources", &key, true);
+        let mut sf = Map::new();
+        if has_sources {
+            sf.insert("sources".to_string(), Val::List(vec![Val::Sym("S0".into()), Val::Sym("S1".into())]));
+        }
+        if has_mode {
+            sf.insert("output_mode".to_string(), Val::Sym("MODE".into()));
+        }
+        let mut me = Map::new();
+        me.insert("state".to_string(), Val::Ctor(state.clone(), vec![], sf));
+        me.insert("backend".to_string(), Val::Sym("BACKEND".into()));
+        let mut env = Env::new();
+        env.insert("self".into(), Val::Ctor("Compiler".into(), vec![], me));
+        let params: Vec<String> = f.sig.inputs.iter().filter_map(|a| match a { syn::FnArg::Typed(t) => Some(tok(&t.pat)), _ => None }).collect();
+        let several = f.name.contains("sources");
+        for p in &params {
+            env.insert(p.clone(), if several { Val::List(vec![Val::Sym("N0".into()), Val::Sym("N1".into())]) } else { Val::Sym("N0".into()) });
+        }
+        let adds = f.name.starts_with("add_asn");
+        match ev.eval_fn_body(&f.block, &mut env) {
+            Ok(Val::Ctor(_, _, cf)) => {
+                let Some(Val::Ctor(_, _, sf2)) = cf.get("state") else {
+                    ctx.fail_closed("C20.sources", &format!("[{}]: the result has no state", key));
+                    continue;
+                };
+                // sources are compared by the marker they wrap: AsnSource::Path(S) / AsnSource::Literal(S) / S
+                fn marker(v: &Val) -> String {
+                    match v {
+                        Val::Ctor(_, p, _) if p.len() == 1 => marker(&p[0]),
+                        Val::Sym(s) | Val::Str(s) => s.clone(),
+                        o => o.show(),
+                    }
+                }
+                let got: Option<Vec<String>> = match sf2.get("sources") { Some(Val::List(l)) => Some(l.iter().map(marker).collect()), _ => None };
+                let mut want: Vec<String> = if has_sources { vec!["S0".into(), "S1".into()] } else { vec![] };
+                if adds {
+                    want.push("N0".into());
+                    if several { want.push("N1".into()); }
+                }
+                let expect_sources = has_sources || adds;
+                if expect_sources && got.as_ref() != Some(&want) {
+                    ctx.violate("C20.sources", &format!("sources-not-kept:{}", key), &f.file, f.line,
+                        &format!("Compiler<_, {}>::{} on a compiler that holds the sources {:?} yields the sources {:?}; expected {:?}: a source that was added is silently forgotten, compile() and compile_to_string() then deliver bindings for fewer modules than were handed in and still return Ok", state, f.name, if has_sources { vec!["S0", "S1"] } else { vec![] }, got, want));
+                }
+                if has_mode && !f.name.starts_with("set_output") {
+                    let mode = sf2.get("output_mode").map(|v| v.show());
+                    if mode.as_deref() != Some("MODE") {
+                        ctx.violate("C20.sources", &format!("output-mode-not-kept:{}", key), &f.file, f.line, &format!("Compiler<_, {}>::{} does not carry the output mode over (got {:?})", state, f.name, mode));
+                    }
+                }
+            }
+            Ok(o) => ctx.fail_closed("C20.sources", &format!("[{}]: evaluates to {}", key, o.show().chars().take(100).collect::<String>())),
+            Err(e) => ctx.fail_closed("C20.sources", &format!("[{}]: {}", key, e)),
+        }
+    }
+    ctx.floor("C20.sources/builder-methods", n, 12);
+}
+
 pub fn run(m: &Model, ctx: &mut Ctx, facts: &Facts) {
     ctx.explanation = "C20.effects (MIR): every file/stdout/process effect reachable from Compiler's public methods is located in output_generated (or the audited rustfmt child); nothing else on the compile path writes. \
 C20.dom (MIR dominators): output_generated is called only from compile(), at a block dominated by the Continue edge of `internal_compile()?` — on Err nothing is written; and on the Ok edge every path to the return of compile() passes through it (must-pass-through: the delivery is unconditional). \
@@ -237,6 +323,7 @@ File-system semantics (atomicity of fs::write, read-only destinations) are not d
     dest_tables(m, ctx);
     cli(m, ctx);
     cli_stdout(ctx, facts);
+    builder_sources(m, ctx);
     asn1_macro(m, ctx);
 }
 
